@@ -62,6 +62,10 @@ def gen(rng, idx, tier, seed):
                 'start': float(rng.integers(0, 1000)),
                 'tzoffset_min': int(rng.choice([0, 0, -300, 330, 540, -30])),
                 'aware': bool(rng.random() < 0.6),
+                # calendar attribute of the time axis (a no-leap axis drifts
+                # from the real calendar after 29 February)
+                'calendar': str(rng.choice(['standard', 'standard', 'none',
+                                            'noleap', '365_day'])),
                 'method': str(rng.choice(['nearest', 'exact', 'bounds']))}
     n = int(rng.integers(2, 13))
     return {
@@ -361,9 +365,17 @@ def run_time(spec, res):
     tv.units = spec['units']
     vals = spec['start'] + spec['step'] * np.arange(n)
     tv[:] = vals
-    ref = cftime.num2date(vals, spec['units'], 'standard',
-                          only_use_cftime_datetimes=False,
-                          only_use_python_datetimes=True)
+    cal = spec.get('calendar', 'standard')
+    if cal != 'none':
+        tv.calendar = cal
+    if cal in ('noleap', '365_day'):
+        # every no-leap date is also a real date
+        ref = cftime.num2date(vals, spec['units'], cal,
+                              only_use_cftime_datetimes=True)
+    else:
+        ref = cftime.num2date(vals, spec['units'], 'standard',
+                              only_use_cftime_datetimes=False,
+                              only_use_python_datetimes=True)
     times = np.array([datetime.datetime(t.year, t.month, t.day, t.hour,
                                         t.minute, t.second, t.microsecond)
                       for t in ref])
@@ -386,6 +398,7 @@ def run_time(spec, res):
         res.hook('time2idx.return')
         problems.append('time2idx raised %r' % (ex,))
     res.ev(digest(spec), n >= 2, ['time2idx', 'method:' + spec['method'],
+                                  'calendar:' + cal,
                                   'tz:%s' % (spec.get('tzoffset_min', 0)
                                              if spec.get('aware')
                                              else 'naive')])
